@@ -126,6 +126,36 @@ func centredNormQP(rqp ringqp.Ring, p ringqp.Poly) *big.Int {
 // sIn is given by its residues modulo every q of the chain in the NTT + Montgomery domain (as lattigo stores secrets),
 // sOut as a secret-key polynomial. The gadget factors are recomputed here with math/big. Returns the largest norm seen.
 func rowCheck(params rlwe.Parameters, g *rlwe.GadgetCiphertext, k KeySpec, sIn ring.Poly, sOut ringqp.Poly, bound *big.Int) (*big.Int, error) {
+	return rowCheckAcc(params, g, k, sIn, sOut, bound, nil)
+}
+
+// noiseAcc pools the error coefficients of key rows (for the statistical noise oracle).
+type noiseAcc struct {
+	n     int
+	sum   float64
+	sumsq float64
+}
+
+func (a *noiseAcc) add(errs []*big.Int) {
+	for _, e := range errs {
+		f, _ := new(big.Float).SetInt(e).Float64()
+		a.n++
+		a.sum += f
+		a.sumsq += f * f
+	}
+}
+
+// meanSquare is the second moment about zero (the errors are centred distributions).
+func (a *noiseAcc) meanSquare() float64 { return a.sumsq / float64(a.n) }
+
+// centredQP returns the centred coefficients of p (coefficient domain) modulo Q*P.
+func centredQP(rqp ringqp.Ring, p ringqp.Poly) []*big.Int {
+	limbs, ms := qpLimbs(rqp, p)
+	return h.VecCenter(h.CRT(limbs, ms), h.ProdU(ms))
+}
+
+// rowCheckAcc is rowCheck that also pools the row errors into acc (when not nil and the row is within the bound).
+func rowCheckAcc(params rlwe.Parameters, g *rlwe.GadgetCiphertext, k KeySpec, sIn ring.Poly, sOut ringqp.Poly, bound *big.Int, acc *noiseAcc) (*big.Int, error) {
 	rqp := params.RingQP().AtLevel(k.LevelQ, k.LevelP)
 	rq := rqp.RingQ
 	qs := moduli(rq)
@@ -175,12 +205,16 @@ func rowCheck(params rlwe.Parameters, g *rlwe.GadgetCiphertext, k KeySpec, sIn r
 					tu[x] = submod(tu[x], mulmod(fu, su[x], q), q)
 				}
 			}
-			norm := centredNormQP(rqp, t)
+			errs := centredQP(rqp, t)
+			norm := h.InfNorm(errs)
 			if norm.Cmp(maxNorm) > 0 {
 				maxNorm = norm
 			}
 			if norm.Cmp(bound) > 0 {
 				return maxNorm, fmt.Errorf("row (%d,%d): |b + a*sOut - gadget*sIn| = 2^%d exceeds the bound %v", i, j, norm.BitLen(), bound)
+			}
+			if acc != nil {
+				acc.add(errs)
 			}
 		}
 	}
@@ -263,15 +297,23 @@ func gadgetPolys(g *rlwe.GadgetCiphertext) []ringqp.Poly {
 
 // pkCheck verifies pk0 + s*pk1 = e with |e| <= bound over Q*P and returns the norm.
 func pkCheck(params rlwe.Parameters, pk *rlwe.PublicKey, s *rlwe.SecretKey, bound *big.Int) (*big.Int, error) {
+	return pkCheckAcc(params, pk, s, bound, nil)
+}
+
+func pkCheckAcc(params rlwe.Parameters, pk *rlwe.PublicKey, s *rlwe.SecretKey, bound *big.Int, acc *noiseAcc) (*big.Int, error) {
 	rqp := *params.RingQP()
 	t := rqp.NewPoly()
 	t.Copy(pk.Value[0])
 	rqp.MulCoeffsMontgomeryThenAdd(pk.Value[1], s.Value, t)
 	rqp.IMForm(t, t)
 	rqp.INTT(t, t)
-	norm := centredNormQP(rqp, t)
+	errs := centredQP(rqp, t)
+	norm := h.InfNorm(errs)
 	if norm.Cmp(bound) > 0 {
 		return norm, fmt.Errorf("|pk0 + s*pk1| = 2^%d > n*B = %v", norm.BitLen(), bound)
+	}
+	if acc != nil {
+		acc.add(errs)
 	}
 	return norm, nil
 }
